@@ -70,11 +70,12 @@ QuoteV(v) == IF ~v.q THEN [v EXCEPT !.q = TRUE] ELSE [V("quote", 0, "", "", TRUE
 \* ------------------------------------------------------- builtin registry
 \* (name -> kind) of everything this machine knows in package lisp
 OPS    == {"quote", "if", "progn", "let", "let*", "flet", "labels", "lambda", "cond", "and", "or",
-           "set!", "handler-bind", "ignore-errors", "dotimes", "quasiquote", "thread-first", "thread-last"}
+           "set!", "handler-bind", "ignore-errors", "dotimes", "quasiquote", "thread-first", "thread-last", "macrolet"}
 MACROS == {"defun", "defmacro"}
 FUNS   == {"+", "-", "*", "=", "<", ">", "<=", ">=", "not", "list", "cons", "car", "cdr", "first", "rest",
            "length", "identity", "nil?", "set", "funcall", "apply", "error", "rethrow", "probe", "boom",
-           "load-string", "in-package", "use-package", "export", "capture"}
+           "load-string", "in-package", "use-package", "export", "capture",
+           "macroexpand", "macroexpand-1", "eval", "gensym", "equal?"}
 BuiltinKind(name) == IF name \in OPS THEN "op" ELSE IF name \in MACROS THEN "macro" ELSE "fun"
 BuiltinFID(v) == IF v.p = "op" THEN "<special-op ``" \o v.s \o "''>"
                  ELSE IF v.p = "macro" THEN "<builtin-macro ``" \o v.s \o "''>"
@@ -83,7 +84,9 @@ BuiltinFID(v) == IF v.p = "op" THEN "<special-op ``" \o v.s \o "''>"
 \* required / variadic arity of builtin *functions* and ops as registered (Formals(...)) :
 \* <<min, max>> with max = -1 for &rest
 Arity(name) ==
-  CASE name \in {"not", "car", "cdr", "first", "rest", "length", "identity", "nil?", "quote", "quasiquote"} -> <<1, 1>>
+  CASE name \in {"not", "car", "cdr", "first", "rest", "length", "identity", "nil?", "quote", "quasiquote", "macroexpand", "macroexpand-1", "eval"} -> <<1, 1>>
+    [] name = "gensym" -> <<0, 0>>
+    [] name = "equal?" -> <<2, 2>>
     [] name \in {"=", "<", ">", "<=", ">=", "cons"} -> <<2, 2>>
     [] name = "if" -> <<3, 3>>
     [] name = "set!" -> <<2, 2>>
@@ -91,7 +94,7 @@ Arity(name) ==
     [] name \in {"funcall", "apply", "error", "in-package"} -> <<1, -1>>
     [] name = "load-string" -> <<1, 3>>
     [] name \in {"rethrow", "boom", "capture"} -> <<0, 0>>
-    [] name \in {"let", "let*", "flet", "labels", "lambda", "handler-bind", "dotimes", "thread-first", "thread-last"} -> <<1, -1>>
+    [] name \in {"let", "let*", "flet", "labels", "lambda", "handler-bind", "dotimes", "thread-first", "thread-last", "macrolet"} -> <<1, -1>>
     [] name \in {"defun", "defmacro"} -> <<2, -1>>
     [] OTHER -> <<0, -1>>
 ArityOK(name, k) == k >= Arity(name)[1] /\ (Arity(name)[2] = -1 \/ k <= Arity(name)[2])
@@ -132,6 +135,7 @@ InitM(p) ==
     steps   |-> 0,
     polls   |-> 0,
     neid    |-> 0,
+    ngen    |-> 0,              \* gensym counter of the runtime
     estk    |-> <<>>,           \* estk[eid] = the call stack copied onto error eid when it was created
     evi     |-> 1,              \* index of the top-level evaluation in progress
     fi      |-> 0,              \* forms of it already started
@@ -357,6 +361,17 @@ ProdSeq(a) == IF Len(a) = 0 THEN 1 ELSE a[1].n * ProdSeq(Rest(a))
 Cmp(name, a, b) == CASE name = "=" -> a = b [] name = "<" -> a < b [] name = ">" -> a > b
                      [] name = "<=" -> a <= b [] name = ">=" -> a >= b
 
+\* equal?: structural equality of data (quoting flags and source positions ignored)
+RECURSIVE ValEqual(_, _)
+ValEqual(a, b) ==
+  IF a.t # b.t THEN FALSE
+  ELSE CASE a.t = "int" -> a.n = b.n
+         [] a.t = "str" -> a.s = b.s
+         [] a.t = "sym" -> a.s = b.s /\ a.p = b.p
+         [] a.t \in {"list", "quote"} -> Len(a.c) = Len(b.c) /\ \A j \in 1..Len(a.c) : ValEqual(a.c[j], b.c[j])
+         [] a.t = "fun" -> a.n = b.n /\ (a.n > 0 \/ a.s = b.s)
+         [] OTHER -> FALSE
+
 \* pure builtins: value, or "fail" marker
 PureBuiltin(name, a) ==
   LET n == Len(a)  bad == [ok |-> FALSE, v |-> VNil]  good(v) == [ok |-> TRUE, v |-> v] IN
@@ -374,6 +389,7 @@ PureBuiltin(name, a) ==
     [] name \in {"car", "first"} -> IF a[1].t # "list" THEN bad ELSE IF Len(a[1].c) = 0 THEN good(VNil) ELSE good(a[1].c[1])
     [] name \in {"cdr", "rest"} -> IF a[1].t # "list" THEN bad ELSE IF Len(a[1].c) <= 1 THEN good(VNil) ELSE good(VQList(Rest(a[1].c)))
     [] name = "length" -> IF a[1].t = "list" THEN good(VInt(Len(a[1].c))) ELSE bad
+    [] name = "equal?" -> good(VBool(ValEqual(a[1], a[2])))
     [] OTHER -> bad
 
 PopCall(s) == [s EXCEPT !.frames = Pop(@), !.k = Pop(@)]
@@ -499,6 +515,17 @@ DoCall(s) ==
     [] f.s = "export" ->
          IF ExportNames(args).ok THEN [s EXCEPT !.pkgs[s.pkg].exports = @ \cup ExportNames(args).names, !.ctl = Ret(VNil)]
          ELSE Fail([s EXCEPT !.pkgs[s.pkg].exports = @ \cup ExportNames(args).names], env)
+    [] f.s = "gensym" ->
+         \* a fresh symbol gen<counter>; the harness prints the counter with the real zero padding
+         [s EXCEPT !.ngen = @ + 1, !.ctl = Ret([VSym("gen" \o ToString(s.ngen + 1)) EXCEPT !.n = s.ngen + 1])]
+    [] f.s = "eval" ->
+         \* an LQuote is unwrapped; anything else is evaluated (unquoted once) in the caller's environment
+         IF args[1].t = "quote" THEN [s EXCEPT !.ctl = Ret(args[1].c[1])]
+         ELSE [s EXCEPT !.ctl = Eval([args[1] EXCEPT !.q = FALSE], env)]
+    [] f.s \in {"macroexpand", "macroexpand-1"} ->
+         IF args[1].t # "list" THEN Fail(s, env)
+         ELSE [s EXCEPT !.k = Append(@, [t |-> "mx", all |-> (f.s = "macroexpand"), depth |-> 0, env |-> env, form |-> args[1]]),
+                        !.ctl = [mode |-> "mxstep"]]
     [] f.s \in {"funcall", "apply"} ->
          \* GetFunGlobal: a symbol is looked up in the current *package*, not lexically
          LET fa == args[1]
@@ -516,6 +543,16 @@ DoCall(s) ==
     [] OTHER ->
          LET r == PureBuiltin(f.s, args) IN
          IF r.ok THEN [s EXCEPT !.ctl = Ret(r.v)] ELSE Fail(s, env)
+
+\* macroexpand / macroexpand-1: one MacroCall per step while the head of the form is bound to a macro
+CanMxStep(s) == s.ctl.mode = "mxstep"
+MxStep(s) ==
+  LET x == Top(s.k)  form == x.form IN
+  IF x.all /\ x.depth > s.cfg.maxmacro THEN Fail([s EXCEPT !.k = Pop(@)], x.env)
+  ELSE IF Len(form.c) = 0 \/ form.c[1].t # "sym" THEN [s EXCEPT !.k = Pop(@), !.ctl = Ret(form)]
+  ELSE LET r == SymValue(s, form.c[1], x.env) IN
+       IF ~r.ok \/ ~IsFun(r.v) \/ FunKind(s, r.v) # "macro" THEN [s EXCEPT !.k = Pop(@), !.ctl = Ret(form)]
+       ELSE [s EXCEPT !.ctl = [mode |-> "dispatch", f |-> NameFun(r.v, form.c[1]), args |-> Rest(form.c), env |-> x.env]]
 
 \* body of a lambda: non-last forms are evaluated for effect; the last form puts the frame in its terminal state
 CanBodyStep(s) == s.ctl.mode = "bodystep"
@@ -657,7 +694,7 @@ OpStep(s) ==
                                  last(x) == CHOOSE j \in 1..nb : binds[j].c[1].s = x /\ \A j2 \in 1..nb : binds[j2].c[1].s = x => j2 <= j
                                  s1 == [s EXCEPT !.envs[le].vars = [x \in DOMAIN @ \cup names |-> IF x \in names THEN o.vals[last(x)] ELSE @[x]]] IN
                              Progn(s1, [o EXCEPT !.vals = <<>>], Rest(a), 0, le)
-    [] o.op \in {"flet", "labels"} ->
+    [] o.op \in {"flet", "labels", "macrolet"} ->
          IF o.phase = "progn" THEN Progn(s, o, Rest(a), o.j, o.env2)
          ELSE IF a[1].t # "list" THEN OpFail(s, env)     \* (fletenv allocated first; unobservable)
          ELSE LET binds == a[1].c  nb == Len(binds) IN
@@ -670,9 +707,9 @@ OpStep(s) ==
                        Def(st, j) ==
                          IF j > nb THEN st
                          ELSE LET bnd == binds[j]
-                                  st1 == IF o.op = "flet" THEN NewEnv(st, env) ELSE st
-                                  cenv == IF o.op = "flet" THEN Len(st1.envs) ELSE fe
-                                  st2 == MkClosure(st1, "fun", bnd.c[2], SubSeq(bnd.c, 3, Len(bnd.c)), cenv)
+                                  st1 == IF o.op \in {"flet", "macrolet"} THEN NewEnv(st, env) ELSE st
+                                  cenv == IF o.op \in {"flet", "macrolet"} THEN Len(st1.envs) ELSE fe
+                                  st2 == MkClosure(st1, IF o.op = "macrolet" THEN "macro" ELSE "fun", bnd.c[2], SubSeq(bnd.c, 3, Len(bnd.c)), cenv)
                                   st3 == PutVar(st2, fe, bnd.c[1].s, VClosure(Len(st2.funs), bnd.c[1].s)) IN
                               Def(st3, j + 1) IN
                    LET s2 == Def(s1, 1) IN
@@ -772,6 +809,12 @@ DoReturn(s) ==
     [] c.t = "cells" ->
          IF IsErr(v) THEN LeaveCells(s, c)
          ELSE [s EXCEPT !.k = SetTop(@, [c EXCEPT !.vals = Append(@, v)]), !.ctl = [mode |-> "cellstep"]]
+    [] c.t = "mx" ->
+         IF IsErr(v) THEN [s EXCEPT !.k = Pop(@)]
+         ELSE IF v.t # "macexp" THEN Fail([s EXCEPT !.k = Pop(@)], c.env)
+         ELSE LET q == QuoteV(v.c[1]) IN
+              IF ~c.all \/ q.t # "list" THEN [s EXCEPT !.k = Pop(@), !.ctl = Ret(q)]
+              ELSE [s EXCEPT !.k = SetTop(@, [c EXCEPT !.form = q, !.depth = @ + 1]), !.ctl = [mode |-> "mxstep"]]
     [] c.t = "load" ->
          \* load: forms in order, stop at the first error; the package current at entry is restored (deferred)
          IF IsErr(v) \/ c.j = Len(c.forms) THEN [s EXCEPT !.k = Pop(@), !.pkg = c.saved]
@@ -825,6 +868,7 @@ Unwind(s) ==
     [] c.t = "call" -> Unwind(PopCall(s))
     [] c.t = "body" -> Unwind([s EXCEPT !.k = Pop(@), !.pkg = c.outer])
     [] c.t = "load" -> Unwind([s EXCEPT !.k = Pop(@), !.pkg = c.saved])
+    [] c.t = "mx" -> Unwind([s EXCEPT !.k = Pop(@)])
     [] c.t = "op" -> Unwind([s EXCEPT !.k = Pop(@), !.conds = IF c.op = "handler-bind" /\ c.pushed /\ c.phase = "hcall" THEN Pop(@) ELSE @])
     [] OTHER -> [s EXCEPT !.k = Pop(@)]
 DoPanic(s) ==
@@ -844,6 +888,7 @@ Next == \/ /\ CanNext(m) /\ m' = NextForm(m)
         \/ CanDispatch(m) /\ m' = Dispatch(m)
         \/ CanCall(m)     /\ m' = DoCall(m)
         \/ CanBodyStep(m) /\ m' = BodyStep(m)
+        \/ CanMxStep(m)   /\ m' = MxStep(m)
         \/ CanOpStep(m)   /\ m' = OpStep(m)
         \/ CanReturn(m)   /\ m' = DoReturn(m)
         \/ CanPanic(m)    /\ m' = DoPanic(m)
